@@ -139,6 +139,7 @@ def _fmt_cfg(cfg):
 # the quick plan -- a bound that is known to be decided -- and says so in its evidence (DESIGN.md 10.1).
 THOROUGH_USES_QUICK_PLAN = {
     'C06': 'thorough kernel shapes with four symbolic characters need more than 40 minutes each',
+    'C11': 'thorough statement-parser and front-end shapes (one more symbolic character, 40-minute budgets) were not run to the end on the final tree',
     'C14': 'thorough schedules (14 decisions, 5 lead-ins) were not run to the end on the final tree',
     'C16': 'thorough reload histories (n = 5) were not run to the end on the final tree',
 }
